@@ -13,7 +13,8 @@ CONSTANTS Depth,            \* number of environment actions per behaviour
           AllowPanic,       \* generate handler panics
           AllowStopReading, \* generate clients that stop reading
           AllowAcceptFault, \* generate temporary accept failures
-          AllowSilent       \* generate clients that never start a TLS handshake (after StartTLS) on a plain listener
+          AllowSilent,      \* generate clients that never start a TLS handshake (after StartTLS) on a plain listener
+          AllowTimeout      \* generate expiries of a connection's read deadline (server created WithReadTimeout)
 
 VARIABLES hist,     \* Seq of [a |-> action/event name, c, i, k, s, hold]
           plan,     \* [Conns -> [Reqs -> BOOLEAN]] : the handler of request i on c holds until released
@@ -39,8 +40,8 @@ ServerQ0 ==
         \/ Quiet(ConnHandshake(c))
         \/ (ConnHead(c) /\ (IF ctxDone THEN Log(E("notice", c, 0, "", "", FALSE)) ELSE UNCHANGED hist) /\ UNCHANGED plan)
         \/ (ConnRead(c) /\ UNCHANGED plan /\
-              IF ~NothingToRead(c) /\ ~NeedsHandshake(c) /\ Head(inq[c]) \in {"op", "starttls"} THEN Log(E("hstart", c, nreq[c], Head(inq[c]), "", FALSE))
-              ELSE IF ~NothingToRead(c) /\ ~NeedsHandshake(c) /\ Head(inq[c]) = "unbind" THEN Log(E("hunbind", c, nreq[c], "unbind", "", FALSE))
+              IF ~rdl[c] /\ ~NothingToRead(c) /\ ~NeedsHandshake(c) /\ Head(inq[c]) \in {"op", "starttls"} THEN Log(E("hstart", c, nreq[c], Head(inq[c]), "", FALSE))
+              ELSE IF ~rdl[c] /\ ~NothingToRead(c) /\ ~NeedsHandshake(c) /\ Head(inq[c]) = "unbind" THEN Log(E("hunbind", c, nreq[c], "unbind", "", FALSE))
               ELSE UNCHANGED hist)
         \/ (cpc[c] = "inline" /\ ~pinline[c][nreq[c]] /\ ~plan[c][nreq[c]] /\ ConnInlineReturn(c) /\ Log(E("hend", c, nreq[c], "starttls", "", FALSE)) /\ UNCHANGED plan)
         \/ (cpc[c] = "inline" /\ pinline[c][nreq[c]] /\ ConnInlinePanic(c) /\ UNCHANGED <<hist, plan>>)
@@ -58,6 +59,7 @@ EnvQ0 ==
         \/ (\E ck \in (IF AllowSilent \/ TLSMode # "none" THEN ClientKinds ELSE {"valid"}) : DialAs(c, ck) /\ Log(E("dial", c, 0, ck, "", FALSE)) /\ UNCHANGED plan)
         \/ (ClientClose(c) /\ Log(E("close", c, 0, "", "", FALSE)) /\ UNCHANGED plan)
         \/ (AllowStopReading /\ StopReading(c) /\ Log(E("stopreading", c, 0, "", "", FALSE)) /\ UNCHANGED plan)
+        \/ (AllowTimeout /\ ReadDeadline(c) /\ Log(E("timeout", c, 0, "", "", FALSE)) /\ UNCHANGED plan)
         \/ \E k \in FrameKinds, h \in BOOLEAN :
               /\ (h => k \in {"op", "starttls"}) /\ net[c] = "open"
               /\ (TLSMode # "none" => ckind[c] # "silent")         \* a silent client never sends anything
@@ -75,7 +77,7 @@ SendPanicking(c, k) == /\ k \in {"starttls", "unbind"} \cap FrameKinds /\ net[c]
 EnvQ == \/ (EnvQ0 /\ UNCHANGED pinline)
         \/ (AllowPanic /\ \E c \in Conns, k \in FrameKinds : SendPanicking(c, k))
         \/ (AllowAcceptFault /\ AcceptFault /\ Log(E("emfile", "", 0, "", "", FALSE)) /\ UNCHANGED <<plan, pinline>>)
-NEnv == Cardinality({j \in 1..Len(hist) : hist[j].a \in {"run", "stop", "dial", "close", "send", "release", "panic", "stopreading", "emfile"}})
+NEnv == Cardinality({j \in 1..Len(hist) : hist[j].a \in {"run", "stop", "dial", "close", "send", "release", "panic", "stopreading", "emfile", "timeout"}})
 SNext == IF ENABLED ServerQ THEN ServerQ ELSE (NEnv < Depth /\ EnvQ)
 SSpec == SInit /\ [][SNext]_svars
 
